@@ -462,6 +462,39 @@ def tlc_graph(sc, module, cfg, timeout=900, workers=None, fields=None):
     return r, nodes, edges, inits
 
 
+def sim_paths(sc, module, cfg, num, depth, seed, fields=None, timeout=600):
+    """Random behaviours from TLC's simulator: returns (TLCResult, list of paths); a path is the
+    list of states (dicts, optionally restricted to `fields`) after the initial state."""
+    d = tempfile.mkdtemp(prefix="sim-", dir=sc.dir)
+    r = tlc(sc, module, cfg, workers=1, simulate="file=%s/b,num=%d" % (d, num),
+            extra=["-depth", str(depth), "-seed", str(seed)], timeout=timeout)
+    if r.rc != 0:
+        raise Infra("TLC simulate failed on %s/%s (rc=%s):\n%s" % (module, cfg, r.rc, r.out[-3000:]))
+    m = re.search(r"The number of states generated: (\d+)", r.out)
+    if m:
+        r.generated = r.distinct = int(m.group(1))
+    paths = []
+    for fn in sorted(os.listdir(d)):
+        txt = open(os.path.join(d, fn)).read()
+        states = []
+        for blk in re.split(r"\nSTATE_\d+ ==\s*\n", txt)[1:]:
+            blk = blk.split("\n\n")[0]
+            if fields is None:
+                states.append(parse_state(blk))
+            else:
+                st = {}
+                for part in blk.split("\n/\\ "):
+                    part = part.lstrip("/\\ ")
+                    name, _, val = part.partition(" = ")
+                    if name in fields:
+                        st[name] = parse_value(val)
+                states.append(st)
+        if len(states) > 1:
+            paths.append(states[1:])
+    shutil.rmtree(d, ignore_errors=True)
+    return r, paths
+
+
 # ------------------------------------------------------------------ known findings, verdicts, evidence
 
 def load_known():
